@@ -2,17 +2,19 @@ import PwVerif.Model.Storage
 import PwVerif.Model.Proto
 open PwVerif PwVerif.Storage PwVerif.Proto
 
-/-- both variants are run side by side on the same op stream; every op prints one line per
-variant (`I …` = inPlace/pinned, `A …` = atomicReplace/repaired) -/
+/-- the variants are run side by side on the same op stream; every op prints one line per
+variant (`I …` = inPlace/pinned, `A …` = atomicReplace = the tree as it is, `S …` = atomicReplace with the
+delete that always sweeps) -/
 structure St where
   wi : World
   wa : World
+  ws : World
 
-def init : St := ⟨.init 0, .init 0⟩
+def init : St := ⟨.init Cls.graph, .init Cls.graph, .init Cls.graph⟩
 
 def showFile : FileSt → String
   | .absent => "absent" | .empty => "empty" | .torn => "torn"
-  | .good c v => s!"good:{c}:{v}"
+  | .good c v => s!"good:{c.id}:{v}"
 
 def showSlot : Slot → String
   | .pckl => "pckl" | .cpckl => "cpckl" | .pcklTmp => "pt" | .cpcklTmp => "ct"
@@ -32,7 +34,11 @@ def showLoad : NodeLoadRes → String
 def showRes : Res → String
   | .saved => "saved" | .saveRaised => "saveRaised" | .crashed => "crashed" | .deleted => "deleted"
   | .fresh => "fresh" | .load r => showLoad r
-  | .foreign n r => s!"{showLoad r} foreign={n.cls}:{n.ver}"
+  | .foreign n r => s!"{showLoad r} foreign={n.cls.id}:{n.ver}"
+
+def parseRel : String → Option ClassRel
+  | "same" => some .same | "samename" => some .sameName | "diffname" => some .diffName
+  | "sub" => some .subclass | "super" => some .superclass | _ => none
 
 def parseContent : String → Option Content
   | "ok" => some .ok | "pf" => some .pickleFails | "bf" => some .bothFail | _ => none
@@ -46,19 +52,20 @@ def trace (cfg : Cfg) (w : World) : Op → List String
     st.map showStep ++ (if fs1.noFiles then ["rmdir"] else [])
   | .crash c v k => ((saveSteps cfg.saveMode c w.node.cls v).take k).map showStep
   | .delete =>
-    let st := if hasSaved w.fs then deleteSteps cfg.saveMode else []
+    let st := if hasSaved w.fs || (cfg.sweep && hasLeftover w.fs) then deleteSteps cfg.saveMode else []
     let fs1 := runSteps w.fs st
     st.map showStep ++ (if fs1.dir && fs1.noFiles then ["rmdir"] else [])
   | _ => []
 
 def obs (tag : String) (cfg : Cfg) (w : World) (op : Op) : World × String :=
   let (w', r) := Storage.step cfg w op
-  (w', s!"{tag} {showRes r} | {showFS w'.fs} | node={w'.node.ver} | steps={",".intercalate (trace cfg w op)}")
+  (w', s!"{tag} {showRes r} | {showFS w'.fs} | has={if hasSaved w'.fs then 1 else 0} | node={w'.node.ver} | steps={",".intercalate (trace cfg w op)}")
 
 def both (s : St) (op : Op) : St × List String :=
-  let (wi, li) := obs "I" ⟨.inPlace⟩ s.wi op
-  let (wa, la) := obs "A" ⟨.atomicReplace⟩ s.wa op
-  (⟨wi, wa⟩, [li, la])
+  let (wi, li) := obs "I" Cfg.pinned s.wi op
+  let (wa, la) := obs "A" Cfg.current s.wa op
+  let (ws, ls) := obs "S" Cfg.swept s.ws op
+  (⟨wi, wa, ws⟩, [li, la, ls])
 
 def step (s : St) (ws : List String) : St × List String :=
   match ws with
@@ -73,9 +80,9 @@ def step (s : St) (ws : List String) : St × List String :=
   | ["load"] => both s .load
   | ["delete"] => both s .delete
   | ["reopen"] => both s .reopen
-  | ["foreign", c, v] =>
-    match c.toNat?, v.toNat? with
-    | some c, some v => both s (.loadForeign c v)
+  | ["foreign", rel, v] =>
+    match parseRel rel, v.toNat? with
+    | some rel, some v => both s (.loadForeign (Cls.ofRel rel) v)
     | _, _ => (s, ["bad-op"])
   | _ => (s, ["bad-op"])
 
